@@ -8,15 +8,17 @@
    The vertex weights are used by the code only through `.zip(weights.iter())`
    in the two candidate scans, i.e. through their number: [wlen].
 
-   Panic sites: 1 = `unimplemented!()` (number of distinct part ids <> 2),
+   Panic sites: 1 = `unimplemented!()` (number of distinct part ids <> 2; since
+   3ea376d only > 2: fewer than two ids return at once, flag [few_ids_return]),
    2 = index out of bounds / `outer_view(..).unwrap()` on a missing row,
    3 = `.unwrap()` of the second candidate scan,
    4 = (pinned tree only) `.unwrap()` of `min_by` on an empty `cut_saves`,
    5 = (pinned tree only) `.unwrap()` of the first candidate scan.
 
    [old_scan = true] / [old_rewind = true] reproduce the tree before the `fix:`
-   commits 0b6d4a7 / 625d2b1 (kept for the regression witnesses); which one the
-   current source is, is read from it by the translator (Gen/KlGen.v). *)
+   commits 0b6d4a7 / 625d2b1, [few_ids_return = false] the one before 3ea376d
+   (kept for the regression witnesses); which one the current source is, is
+   read from it by the translator (Gen/KlGen.v). *)
 From Coupe Require Import Lib.Prelude Lib.Graph.
 Open Scope Z_scope.
 
@@ -25,7 +27,8 @@ Record kl_cfg := {
   max_flips : option N;           (* Option<usize> *)
   max_bad : N;                    (* max_bad_move_in_a_row *)
   old_scan : bool;                (* first candidate scan ends in `.unwrap()`, no `any` test *)
-  old_rewind : bool               (* `min_by(..).unwrap()`, rewind keeps saves[..=best_pos] *)
+  old_rewind : bool;              (* `min_by(..).unwrap()`, rewind keeps saves[..=best_pos] *)
+  few_ids_return : bool           (* `if unique_ids.len() < 2 { return; }` precedes the `unimplemented!()` *)
 }.
 
 (* itertools `unique()`: first occurrences, in order *)
@@ -224,6 +227,7 @@ Definition kl (cfg : kl_cfg) (fuel : nat) (g : graph) (wlen : nat) (p : list N) 
     | None => Panic 2
     | Some c => kl_passes cfg g u0 u1 wlen fuel 0%N c p
     end
+  | [] | [_] => if few_ids_return cfg then Ok p else Panic 1
   | _ => Panic 1
   end.
 
